@@ -21,6 +21,7 @@ type Config struct {
 	NonNilLazy   bool
 	Verbose      bool
 	NoContracts  map[string]bool // callees to inline even though they have contracts
+	ForceModular map[string]bool // callees summarised by havoc + contract even without ensures/assigns
 	OnlyContract map[string]bool
 }
 
@@ -51,6 +52,8 @@ type Exec struct {
 	txnDB    map[*Object]*Object
 	itemOf   map[*Object]itemRef
 	entryKV  map[*Object][2]*Term
+	repoSentinel map[int64]bool
+	ifaceN   int64
 }
 
 func NewExec(prog *ssa.Program, specs *SpecDB, cfg Config) *Exec {
@@ -66,7 +69,7 @@ func NewExec(prog *ssa.Program, specs *SpecDB, cfg Config) *Exec {
 	return &Exec{Prog: prog, G: NewGen(), Specs: specs, Cfg: cfg, loops: map[*ssa.Function]*LoopInfo{},
 		globals: map[*ssa.Global]*Object{}, textOrd: map[*ssa.Function]map[ssa.Instruction]string{},
 		Notes: map[string]int{}, Unsupported: map[string]int{}, identObj: map[string]*Object{}, walkerOf: map[*Object]*Object{}, walkerSig: map[*Object]*Object{},
-		txnDB: map[*Object]*Object{}, itemOf: map[*Object]itemRef{}, entryKV: map[*Object][2]*Term{}}
+		txnDB: map[*Object]*Object{}, itemOf: map[*Object]itemRef{}, entryKV: map[*Object][2]*Term{}, repoSentinel: map[int64]bool{}}
 }
 
 func (ex *Exec) isInRepo(f *ssa.Function) bool {
@@ -93,6 +96,9 @@ func (ex *Exec) useContract(name string) bool {
 	}
 	// a contract that only states entry preconditions (well-formedness of the receiver) is not a summary:
 	// such callees are inlined
+	if ex.Cfg.ForceModular != nil && ex.Cfg.ForceModular[name] {
+		return true
+	}
 	if ex.Specs != nil {
 		if ct := ex.Specs.Contracts[name]; ct != nil && (ct.Inline || len(ct.Ensures) == 0 && !ct.HasAssign) {
 			return false
@@ -161,6 +167,9 @@ func (ex *Exec) globalObj(g *ssa.Global) *Object {
 		// package-level error variables: assumed initialised once with distinct non-nil errors
 		id := int64(len(ex.G.errIDs) + 1000)
 		ex.G.errIDs[g.String()] = id
+		if g.Pkg != nil && strings.HasPrefix(g.Pkg.Pkg.Path(), modulePrefix) {
+			ex.repoSentinel[id] = true
+		}
 		o.Const = true
 		o.initFn = func() Value { return &IfaceV{ID: IntC(id)} }
 	} else {
@@ -654,7 +663,7 @@ func (ex *Exec) runPath(st *State) {
 					}
 				}
 			} else {
-				fmt.Fprintf(os.Stderr, "path %d returned\n", st.ID)
+				fmt.Fprintf(os.Stderr, "path %d returned at %s\n", st.ID, st.LastReturn)
 			}
 		}()
 	}
@@ -689,6 +698,11 @@ func (ex *Exec) jump(st *State, to *ssa.BasicBlock) {
 		// end of the arbitrary iteration: invariant must be re-established
 		ex.phis(st, fr)
 		ex.checkInvariants(st, fr, lp, "preserved")
+		// response obligations triggered inside this iteration must be met inside it
+		if len(st.Frames) > 0 && ex.entryCt != nil {
+			fr0 := st.Frames[0]
+			ex.checkRespondFrom(st, fr0, ex.entryCt, ex.paramNames(fr0.Fn, fr0.Args, nil, false), st.CutEvents, true)
+		}
 		st.Dead = true
 		return
 	}
@@ -700,6 +714,7 @@ func (ex *Exec) jump(st *State, to *ssa.BasicBlock) {
 	}
 	// cut the loop here
 	ex.checkInvariants(st, fr, lp, "entry")
+	st.CutEvents = len(st.Events)
 	ex.havocLoop(st, fr, lp)
 	ex.assumeInvariants(st, fr, lp)
 	fr.Cut[to] = true
